@@ -445,6 +445,9 @@ type CancelCase struct {
 	K         int         `json:"k"` // permille position among baseline effects
 	Two       bool        `json:"two"`
 	FromOther bool        `json:"from_other"`
+	// LimitDelta > 0: the thread also has a step limit that expires LimitDelta steps after the host's
+	// cancellation, so both reasons compete; the host's, given first, must be the one reported.
+	LimitDelta int `json:"limit_delta,omitempty"`
 }
 
 func checkCancel(c CancelCase) error {
@@ -462,7 +465,11 @@ func checkCancel(c CancelCase) error {
 		reasons = append(reasons, "reason-TWO")
 	}
 	th := &starlark.Thread{Name: "cancel"}
-	r := runOn(th, c.Prog, 0, hooks{cancelAt: k, reasons: reasons, fromOther: c.FromOther})
+	var limit uint64
+	if c.LimitDelta > 0 {
+		limit = base.events[k-1].step + uint64(c.LimitDelta)
+	}
+	r := runOn(th, c.Prog, limit, hooks{cancelAt: k, reasons: reasons, fromOther: c.FromOther})
 	key := fmt.Sprintf("k=%d of %d", k, len(base.events))
 	if !isCancelled(r.err, "reason-ONE") {
 		return fmt.Errorf("%s: expected cancellation naming the first reason, got %v", key, r.err)
@@ -479,11 +486,18 @@ func checkCancel(c CancelCase) error {
 			return fmt.Errorf("%s: effect %d is %q, expected %q", key, i, got[i], want[i])
 		}
 	}
-	// cancellation is sticky
-	r2 := runOn(th, c.Prog, 0, hooks{})
-	if !isCancelled(r2.err, "reason-ONE") || len(r2.events) != 0 {
-		return fmt.Errorf("%s: re-execution on the cancelled thread: err=%v, %d effects (expected immediate cancellation)", key, r2.err, len(r2.events))
+	if strings.Contains(r.err.Error(), "too many steps") {
+		return fmt.Errorf("%s: the step limit's reason replaced the host's earlier reason: %v", key, r.err)
 	}
+	// cancellation is sticky, and keeps naming the first reason however often the thread is re-used
+	// (each attempt consumes a step, so a pending step limit expires during these attempts)
+	for attempt := 0; attempt < 1+3*c.LimitDelta; attempt++ {
+		r2 := runOn(th, c.Prog, 0, hooks{})
+		if !isCancelled(r2.err, "reason-ONE") || len(r2.events) != 0 || strings.Contains(r2.err.Error(), "too many steps") {
+			return fmt.Errorf("%s: re-execution %d on the cancelled thread: err=%v, %d effects (expected immediate cancellation naming the first reason)", key, attempt, r2.err, len(r2.events))
+		}
+	}
+	th.SetMaxExecutionSteps(^uint64(0))
 	th.Uncancel()
 	r3 := runOn(th, c.Prog, 0, hooks{})
 	if (r3.err != nil) != (base.err != nil) || len(r3.events) != len(base.events) {
@@ -492,7 +506,7 @@ func checkCancel(c CancelCase) error {
 	if isCancelled(r3.err, "") {
 		return fmt.Errorf("%s: still cancelled after Uncancel: %v", key, r3.err)
 	}
-	vk.S.Class(fmt.Sprintf("cancel:two=%v,other=%v", c.Two, c.FromOther))
+	vk.S.Class(fmt.Sprintf("cancel:two=%v,other=%v,limit=%v", c.Two, c.FromOther, c.LimitDelta > 0))
 	if base.events[k-1].depth >= 2 {
 		vk.S.Class("cancel-inside-nested-call")
 		vk.S.NonTrivial(c.Prog.Src + key)
@@ -505,7 +519,11 @@ var subCancel = vk.Register("cancel", checkCancel)
 
 func TestPropCancel(t *testing.T) {
 	vk.Rapid(t, subCancel, vk.N(600, 6000), func(t *rapid.T) CancelCase {
-		return CancelCase{Prog: genProg(t), K: vk.Uniform(t, 1000), Two: vk.Chance(t, 0.5), FromOther: vk.Chance(t, 0.5)}
+		c := CancelCase{Prog: genProg(t), K: vk.Uniform(t, 1000), Two: vk.Chance(t, 0.5), FromOther: vk.Chance(t, 0.5)}
+		if vk.Chance(t, 0.5) {
+			c.LimitDelta = 1 + vk.Uniform(t, 4)
+		}
+		return c
 	})
 }
 
